@@ -99,7 +99,7 @@ def c09(report, cfg):
             if got == exp:
                 report.ok("R9.2", nkey)
             else:
-                report.violated("R9.2", nkey, "%s::new does not build the key schedule for tweak (0,0)" % name)
+                report.violated("R9.2", nkey, "%s::new does not build the key schedule for tweak (0,0)" % name, graphs=(got, exp))
         engine_guard(go_new, report, "R9.2", nkey)
 
 
